@@ -125,8 +125,19 @@ def refs_in(v):
     for x in v[1]:
       yield from refs_in(x)
   elif v[0] == 'dict':
-    for _, x in v[1]:
+    for k, x in v[1]:
+      yield from refs_in(k)
       yield from refs_in(x)
+
+
+def dict_keys_in(v):
+  if v[0] == 'dict':
+    for k, x in v[1]:
+      yield k
+      yield from dict_keys_in(x)
+  elif v[0] in ('list', 'tuple'):
+    for x in v[1]:
+      yield from dict_keys_in(x)
 
 
 def unscoped(name):
@@ -376,6 +387,9 @@ def _check(case, nm, skip, labels):
     labels.add('placeholder-use-and-finalize-checked')
     if any(s[0] == 'macro' for s in placeholders_checked):
       labels.add('finalize-checked:placeholder-in-macro-definition')
+    if any(k[0] != 'lit' and any(True for _ in refs_in(k)) for s in placeholders_checked
+           for v in values_of(s) for k in dict_keys_in(v)):
+      labels.add('finalize-checked:placeholder-in-dict-key')
     try:
       gin.finalize()
       raise Violation('finalize-accepted-placeholder', text)
@@ -464,7 +478,11 @@ def strategy(draw):
       u = draw(st.sampled_from(cov or unknown))
       ref = ['ref', draw(st.sampled_from(['', 's/', 's/t/'])) + u, draw(st.booleans())]
       v = draw(st.sampled_from([ref, ['list', [['lit', '1'], ref]],
-                                ['dict', [[['lit', "'k'"], ['tuple', [ref]]]]]]))
+                                ['dict', [[['lit', "'k'"], ['tuple', [ref]]]]],
+                                # in key position (uncalled references only: a key is hashed)
+                                ['dict', [[['ref', ref[1], False], ['lit', '1']]]],
+                                ['list', [['dict', [[['tuple', [['lit', '1'], ['ref', ref[1], False]]],
+                                                     ['lit', "'v'"]]]]]]]))
       if draw(st.integers(0, 3)) == 0:
         stmts.append(['macro', '', draw(st.sampled_from(['M', 'N'])), v])
       else:
